@@ -119,6 +119,34 @@ Definition contrib (a b : Z) (f u : Z) (ss : list (bytes * N)) : option (list (l
   then Some (map (fun kv => (bsplit 59%N (fst kv), Z.to_N (Z.of_N (snd kv) / span * o))) ss)
   else None.
 
+(* per stack: x <= y *)
+Definition den_le (x y : list (list bytes * N)) : bool :=
+  forallb (fun pv => (snd pv <=? pget (fst pv) y)%N) x.
+
+(* An upper bound that needs no proviso on spans or counts (C03's "no invented samples", C11's "deleted samples never
+   reappear"): per stack, a query returns at most the whole counts of the uploads that are still live for its selector
+   (accepted, not deleted since) and whose window meets the queried range.  Scaling floors, retention and averaging
+   only ever reduce an answer. *)
+Definition upper_bound (sel : sid) (a b : Z) (rev_prefix : list hop) : list (list bytes * N) :=
+  pnorm (concat (map (fun x : sid * Z * Z * list (bytes * N) * meta =>
+                        let '(_, f, u, ss, _) := x in
+                        let '(wa, wb) := put_span f u in
+                        if 0 <? ov wa wb a b then map (fun kv => (bsplit 59%N (fst kv), snd kv)) ss else [])
+                     (live_puts sel rev_prefix []))).
+
+Fixpoint spec_upper_gets (rev_prefix rest : list hop) : list verdict :=
+  match rest with
+  | [] => []
+  | h :: rest' =>
+      (match h with
+       | HGet sel f u (Some ob) =>
+           let '(a, b) := s_normalize_unix (f, u) in
+           [spec (den_le (pnz (pnorm (t_den (g_tree ob)))) (upper_bound sel a b rev_prefix))
+                 "a query returns more of a stack than the live uploads into its range contain (invented, or deleted samples reappeared)"%string]
+       | _ => []
+       end) ++ spec_upper_gets (h :: rev_prefix) rest'
+  end.
+
 Fixpoint all_some {A} (l : list (option A)) : option (list A) :=
   match l with
   | [] => Some []
